@@ -5,10 +5,15 @@
    through contains/insert/len; no clock/env/thread/random source) and by running the real
    generator in fresh processes and on shared Generator values.  Proved here: the one index
    that is built from a hash set depends only on the SET of top-level items -- any
-   reordering of the declarations gives the same generic names (via C13).  PARTIAL: layout
+   reordering of the declarations gives the same generic names (via C13) -- and, C11_ast_reorder /
+   C11_spec_reorder, the WHOLE Ast: for every permutation of the top-level items (declared names
+   pairwise distinct) the constant index and the type index are the very same lists (they are
+   BTreeMaps: key-sorted, determined by their lookups) and the generic set is the same; if one
+   order is accepted every order is.  PARTIAL: layout
    independence (whitespace/comments between tokens) is established by K1 and the search over
    random layouts, not by a theorem about the PEG.  Proofs in XdrProofs.MiscProofs. *)
-From XdrProofs Require Import MiscProofs.
+From XdrProofs Require Import MiscProofs Reorder.
+From Coq Require Import Permutation.
 Open Scope list_scope.
 
 Theorem C11_generics_order_independent :
@@ -30,3 +35,35 @@ Theorem C11_emitters_use_membership_only :
     forall k, is_generic {| constants := constants a; types := types a; generics := g' |} k = is_generic a k.
 Proof. intros a g' H k. unfold is_generic. cbn [generics]. apply H. Qed.
 Print Assumptions C11_emitters_use_membership_only.
+
+(* ---- the whole Ast is independent of the order of the declarations ---- *)
+Theorem C11_ast_reorder :
+  forall items1 items2 A1,
+    Permutation items1 items2 -> Forall const_shaped items1 ->
+    NoDup (map fst (tentries items1)) -> no_prim_names items1 ->
+    ast_of_root (NRoot items1) = EOk A1 ->
+    exists A2, ast_of_root (NRoot items2) = EOk A2 /\
+               constants A2 = constants A1 /\ types A2 = types A1 /\
+               forall n, mem n (generics A2) = mem n (generics A1).
+Proof. exact ast_reorder. Qed.
+Print Assumptions C11_ast_reorder.
+
+(* at the level of declaration lists (Source.sdecl), through the walker *)
+Theorem C11_spec_reorder :
+  forall ds1 ds2 A1,
+    Permutation ds1 ds2 -> Forall decl_ok ds1 ->
+    (forall items, emapM item_of ds1 = EOk items ->
+                   NoDup (map fst (tentries items)) /\ no_prim_names (items ++ [NEOF])) ->
+    ast_new (tree_of ds1) = EOk A1 ->
+    exists A2, ast_new (tree_of ds2) = EOk A2 /\
+               constants A2 = constants A1 /\ types A2 = types A1 /\
+               forall n, mem n (generics A2) = mem n (generics A1).
+Proof. exact spec_reorder. Qed.
+Print Assumptions C11_spec_reorder.
+
+(* the two indexes are canonical: key-sorted lists are determined by their lookups *)
+Theorem C11_sorted_maps_are_canonical :
+  forall (V : Type) (l1 l2 : list (string * V)),
+    ksorted l1 -> ksorted l2 -> (forall k, assoc k l1 = assoc k l2) -> l1 = l2.
+Proof. exact (fun V => @ksorted_ext V). Qed.
+Print Assumptions C11_sorted_maps_are_canonical.
